@@ -271,7 +271,22 @@ func (s *scn) stuck(pre map[uint64]bool) func() (bool, string) {
 	}
 }
 
+// abandoned is set once a scenario had to be left with its goroutines still
+// alive. Whatever they do later (a parked invocation that is released after
+// all echoes into the table of the scenario that is current by then), the
+// following scenarios of this process cannot be judged any more.
+var abandoned atomic.Bool
+
+func skipAfterAbandon(c *core.Ctx, stream string, idx int) bool {
+	if !abandoned.Load() {
+		return false
+	}
+	c.Inconclusive("not run: an earlier scenario of this process was abandoned with live goroutines", stream, idx, nil)
+	return true
+}
+
 func (s *scn) abandon(c *core.Ctx, stream string, idx int, outcome, why string, cfg map[string]interface{}) {
+	abandoned.Store(true)
 	if outcome == "stuck" {
 		frame := why
 		if i := strings.Index(why, "|"); i >= 0 {
@@ -530,6 +545,9 @@ func members(st *evState) []*evState {
 
 // noiseScenario runs one random overlap workload.
 func noiseScenario(c *core.Ctx, stream string, idx int) {
+	if skipAfterAbandon(c, stream, idx) {
+		return
+	}
 	r := c.Rng(stream, idx)
 	n := noiseCfg{workers: r.Range(2, 16), hosts: r.Range(1, 16), perHost: c.Pick(16, 40), loopN: r.Range(2, 5),
 		pFail: []int{0, 1, 4, 4, 7, 8}[r.Intn(6)], failFirst: r.Bool(), fan: r.Chance(3, 4), hooks: true,
@@ -754,6 +772,9 @@ func waitFor(cond func() bool, d time.Duration) bool {
 // sink at one hook point until Y's invocation of the partner sink has passed
 // another. Only the gated sinks may fail, so the expected report is fixed.
 func gateScenario(c *core.Ctx, stream string, idx int) {
+	if skipAfterAbandon(c, stream, idx) {
+		return
+	}
 	r := c.Rng(stream, idx)
 	g := gateConfig(r, idx%nGateCfg)
 	x := &evState{id: 11, kind: g.xKind, name: "ev-" + kindNames[g.xKind], et: "T11"}
